@@ -270,7 +270,7 @@ PROPS["C13"] = {
              "5-minute stale timeout and the 30-minute old-session timeout all fire), spoofed request {packet with data and plausible or arbitrary sequence numbers, poll with ack, close, fragment "
              "probe, set fragment size} carrying a live or closed session's identifier from a foreign address or (for closed sessions) the old address}; after every operation all sessions that "
              "have been exchanging data continuously move fresh data both ways; non-trivial = the whole history was judged; distinct = histories"),
-    "probes": ["sessions_opened", "session_table_filled", "fault_handshake_outage", "opens_aligned_with_prune_tick", "sessions_from_a_reused_address", "late_closes_of_retired_connections", "sessions_closed", "sessions_silenced", "fault_clock_jump", "spoofed_messages", "spoofs_rejected", "history_ops", "stalled_acceptor_histories"],
+    "probes": ["sessions_opened", "session_table_filled", "fault_handshake_outage", "opens_aligned_with_prune_tick", "sessions_from_a_reused_address", "late_closes_of_retired_connections", "sessions_closed", "sessions_silenced", "fault_clock_jump", "spoofed_messages", "spoofs_rejected", "history_ops", "stalled_acceptor_histories", "reordered_pipelined_packets"],
     "technique": "deterministic simulation: histories of k sessions x clock jumps x spoofed messages against the real DNS server, session-table model (distinct ids, per-session PRF streams, spoof rejection, survival across expiry and slot reuse)",
     "level_text": ("Seeded exploration of session histories under a simulated clock. Oracles: live sessions hold pairwise distinct identifiers; every session's streams carry only its own peer's PRF "
                    "data; a spoofed message from a foreign address is answered with an error, never with session data, and the victim's following transfer completes unaltered; a session that "
